@@ -10,15 +10,16 @@ namespace NGF.HandlerVer
 open NGF.Reload NGF.C12
 
 /-- A batch that builds a configuration ends without error — stated over the ENVIRONMENT only (what
-`ReplaceFiles` did, what the master did during `Reload(v)`, the Plus API): for Plus + endpoints-only
-the API result alone; otherwise all files written, `reload_ok_iff`'s right-hand side for version `v`,
-and (Plus) the API. -/
-def ApplyOk (plus : Bool) (b : Batch) (v : Nat) : Prop :=
-  if plus = true ∧ b.ct = .endpointsOnly then b.apiOk = true
+`ReplaceFiles` did, what the master did during `Reload(v)`, the Plus API) and the result `le`
+remembered before the batch: for Plus + endpoints-only with the remembered result ok (`apiOnly`) the
+API result alone; otherwise all files written, `reload_ok_iff`'s right-hand side for version `v`, and
+(Plus) the API. -/
+def ApplyOk (plus le : Bool) (b : Batch) (v : Nat) : Prop :=
+  if apiOnly plus le b = true then b.apiOk = true
   else b.files = .ok ∧ Running b.oracle v ∧ (plus = true → b.apiOk = true)
 
 theorem hstep_err_false_iff (plus : Bool) (s : H) (b : Batch) (hct : b.ct ≠ .noChange) :
-    (hstep plus s b).2.err = false ↔ ApplyOk plus b (s.version + 1) := by
+    (hstep plus s b).2.err = false ↔ ApplyOk plus s.lastErr b (s.version + 1) := by
   have h := hstep_err_iff plus s b
   unfold ApplyOk
   have hcast : ((s.version + 1 : Nat) : Int) = (s.version : Int) + 1 := by simp
@@ -28,9 +29,10 @@ theorem hstep_err_false_iff (plus : Bool) (s : H) (b : Batch) (hct : b.ct ≠ .n
   | true =>
     simp only [Bool.true_eq_false, false_iff]
     have h' := (h.1 he).2
-    by_cases hpe : plus = true ∧ b.ct = .endpointsOnly
-    · simp only [hpe, and_self, if_true] at h' ⊢; simp [h']
-    · simp only [hpe, if_false] at h' ⊢
+    cases hpe : apiOnly plus s.lastErr b with
+    | true => simp only [hpe, if_true] at h' ⊢; simp [h']
+    | false =>
+      simp only [hpe, Bool.false_eq_true, if_false] at h' ⊢
       rintro ⟨hf, hrun, hapi⟩
       rcases h' with hw | hre | ⟨hp, ha⟩
       · simp [Batch.writeOk, hf, FilesOutcome.isOk] at hw
@@ -41,9 +43,10 @@ theorem hstep_err_false_iff (plus : Bool) (s : H) (b : Batch) (hct : b.ct ≠ .n
     rw [he] at h
     simp only [Bool.false_eq_true, false_iff, not_and] at h
     have h' := h hct
-    by_cases hpe : plus = true ∧ b.ct = .endpointsOnly
-    · simp only [hpe, and_self, if_true] at h' ⊢; simpa using h'
-    · simp only [hpe, if_false, not_or, not_and] at h' ⊢
+    cases hpe : apiOnly plus s.lastErr b with
+    | true => simp only [hpe, if_true] at h' ⊢; simpa using h'
+    | false =>
+      simp only [hpe, Bool.false_eq_true, if_false, not_or, not_and] at h' ⊢
       obtain ⟨h1, h2, h3⟩ := h'
       refine ⟨?_, ?_, ?_⟩
       · exact (isOk_iff _).1 (by simpa [Batch.writeOk] using h1)
@@ -56,7 +59,8 @@ theorem hstep_err_false_iff (plus : Bool) (s : H) (b : Batch) (hct : b.ct ≠ .n
 /-- the remembered result after one batch, for every state and every environment -/
 theorem hstep_lastErr_false_iff (plus : Bool) (s : H) (b : Batch) :
     (hstep plus s b).1.lastErr = false ↔
-      (b.ct = .noChange ∧ s.lastErr = false) ∨ (b.ct ≠ .noChange ∧ ApplyOk plus b (s.version + 1)) := by
+      (b.ct = .noChange ∧ s.lastErr = false) ∨
+        (b.ct ≠ .noChange ∧ ApplyOk plus s.lastErr b (s.version + 1)) := by
   rw [hstep_lastErr]
   by_cases hct : b.ct = .noChange
   · simp [hct]
@@ -124,14 +128,6 @@ def lastApply : List Batch → Option (List Batch × Batch)
     | some (pre, x) => some (b :: pre, x)
     | none => if b.ct = .noChange then none else some ([], b)
 
-/-- the last batch that had to go through `updateNginxConf` (files + reload) -/
-def lastReload (plus : Bool) : List Batch → Option (List Batch × Batch)
-  | [] => none
-  | b :: bs =>
-    match lastReload plus bs with
-    | some (pre, x) => some (b :: pre, x)
-    | none => if needsReload plus b then some ([], b) else none
-
 theorem lastApply_spec : ∀ (bs : List Batch),
     match lastApply bs with
     | none => ∀ b ∈ bs, b.ct = .noChange
@@ -162,7 +158,7 @@ theorem run_lastErr_false_iff (plus : Bool) : ∀ (bs : List Batch) (s : H),
     (hrun plus s bs).1.lastErr = false ↔
       match lastApply bs with
       | none => s.lastErr = false
-      | some (pre, x) => ApplyOk plus x (s.version + applies pre + 1)
+      | some (pre, x) => ApplyOk plus (hrun plus s pre).1.lastErr x (s.version + applies pre + 1)
   | [], s => by simp [hrun_nil, lastApply]
   | b :: bs, s => by
     rw [hrun_cons]
@@ -177,7 +173,7 @@ theorem run_lastErr_false_iff (plus : Bool) : ∀ (bs : List Batch) (s : H),
       have : (if b.ct = .noChange then s.version else s.version + 1) + applies pre + 1 =
           s.version + applies (b :: pre) + 1 := by
         simp only [applies]; split <;> omega
-      rw [this]
+      rw [this, hrun_cons plus s b pre]
     | none =>
       rw [h] at ih
       simp only at ih ⊢
@@ -187,7 +183,41 @@ theorem run_lastErr_false_iff (plus : Bool) : ∀ (bs : List Batch) (s : H),
         rw [hstep_lastErr]; simp [hb]
       · simp only [hb, if_false, applies, Nat.add_zero]
         rw [hstep_lastErr_false_iff]
-        simp [hb]
+        simp [hb, hrun_nil]
+
+/-- Since /repo c94173a: while a failed apply is remembered EVERY batch that builds a configuration
+goes through `updateNginxConf` (Plus endpoints-only included); so if none of the following batches
+does, the failure stays remembered. -/
+theorem run_lastErr_stays (plus : Bool) : ∀ (post : List Batch) (s : H), s.lastErr = true →
+    (∀ e ∈ (hrun plus s post).2, e.generated = false) → (hrun plus s post).1.lastErr = true
+  | [], s, h, _ => by simpa [hrun_nil] using h
+  | b :: post, s, h, hg => by
+    rw [hrun_cons] at hg ⊢
+    have h0 := hg _ List.mem_cons_self
+    have hrest : ∀ e ∈ (hrun plus (hstep plus s b).1 post).2, e.generated = false :=
+      fun e he => hg e (List.mem_cons_of_mem _ he)
+    by_cases hct : b.ct = .noChange
+    · exact run_lastErr_stays plus post _ (by rw [hstep_lastErr]; simpa [hct] using h) hrest
+    · exfalso
+      rw [hstep_change plus s b hct] at h0
+      have : (apply plus s.lastErr b (s.version + 1)).generated = true :=
+        (apply_generated_iff plus s.lastErr b _).2 ⟨hct, by simp [apiOnly, h]⟩
+      simp only at h0
+      rw [this] at h0; cases h0
+
+/-- a batch that went through `updateNginxConf` and ended without error wrote all files and the master
+runs its version -/
+theorem hstep_generated_ok (plus : Bool) (s : H) (b : Batch)
+    (hg : (hstep plus s b).2.generated = true) (he : (hstep plus s b).1.lastErr = false) :
+    b.files = .ok ∧ Running b.oracle (s.version + 1 : Nat) := by
+  have hct : b.ct ≠ .noChange := by
+    intro hc; rw [hstep_noChange plus s b hc] at hg; simp [Emit.none] at hg
+  rw [hstep_change plus s b hct] at hg
+  have ha := ((apply_generated_iff plus s.lastErr b _).1 hg).2
+  rcases (hstep_lastErr_false_iff plus s b).1 he with ⟨hn, _⟩ | ⟨_, hok⟩
+  · exact absurd hn hct
+  · simp only [ApplyOk, ha, Bool.false_eq_true, if_false] at hok
+    exact ⟨hok.1, hok.2.1⟩
 
 /-! ### readiness -/
 
@@ -201,7 +231,7 @@ theorem hstep_ready_iff (plus : Bool) (s : H) (b : Batch) :
     state_cases0 s
   · rw [hstep_change plus s b hct]
     simp only [hct, false_and, false_or, ne_eq, not_false_eq_true, true_and]
-    generalize (apply plus b (s.version + 1)).err = e
+    generalize (apply plus s.lastErr b (s.version + 1)).err = e
     state_cases s e
 
 /-- "settled": some batch has been handled — the pod is ready or a first-batch error is stored -/
@@ -212,14 +242,14 @@ theorem hstep_settled (plus : Bool) (s : H) (b : Batch) (h : Settled s) : Settle
   by_cases hct : b.ct = .noChange
   · rw [hstep_noChange plus s b hct]; state_cases0 s
   · rw [hstep_change plus s b hct]
-    generalize (apply plus b (s.version + 1)).err = e
+    generalize (apply plus s.lastErr b (s.version + 1)).err = e
     state_cases s e
 
 /-- from a settled state only a successful apply can make the pod ready -/
 theorem run_ready_iff_settled (plus : Bool) : ∀ (bs : List Batch) (s : H), Settled s →
     ((hrun plus s bs).1.ready = true ↔
       s.ready = true ∨ ∃ pre b post, bs = pre ++ b :: post ∧ b.ct ≠ .noChange ∧
-        ApplyOk plus b (s.version + applies pre + 1))
+        ApplyOk plus (hrun plus s pre).1.lastErr b (s.version + applies pre + 1))
   | [], s, _ => by simp [hrun_nil]
   | b :: bs, s, hs => by
     rw [hrun_cons]
@@ -233,7 +263,7 @@ theorem run_ready_iff_settled (plus : Bool) : ∀ (bs : List Batch) (s : H), Set
       · rcases hs with hr | hfb
         · exact Or.inl hr
         · rw [hf] at hfb; cases hfb
-      · exact Or.inr ⟨[], b, bs, rfl, hc, by simpa [applies] using (hstep_err_false_iff plus s b hc).1 he⟩
+      · exact Or.inr ⟨[], b, bs, rfl, hc, by simpa [applies, hrun_nil] using (hstep_err_false_iff plus s b hc).1 he⟩
       · refine Or.inr ⟨b :: pre, x, post, by simp [hbs], hx, ?_⟩
         rw [hv] at hok
         have : (if b.ct = .noChange then s.version else s.version + 1) + applies pre + 1 =
@@ -246,7 +276,7 @@ theorem run_ready_iff_settled (plus : Bool) : ∀ (bs : List Batch) (s : H), Set
         | nil =>
           simp only [List.nil_append, List.cons.injEq] at hbs
           obtain ⟨rfl, rfl⟩ := hbs
-          exact Or.inl (Or.inr (Or.inr ⟨hx, (hstep_err_false_iff plus s b hx).2 (by simpa [applies] using hok)⟩))
+          exact Or.inl (Or.inr (Or.inr ⟨hx, (hstep_err_false_iff plus s b hx).2 (by simpa [applies, hrun_nil] using hok)⟩))
         | cons p pre =>
           simp only [List.cons_append, List.cons.injEq] at hbs
           obtain ⟨rfl, rfl⟩ := hbs
@@ -262,7 +292,7 @@ theorem hstep_init_settled (plus : Bool) (b : Batch) : Settled (hstep plus H.ini
   by_cases hct : b.ct = .noChange
   · rw [hstep_noChange plus _ b hct]; simp [noChangeStep, setAsReady, H.init]
   · rw [hstep_change plus _ b hct]
-    generalize (apply plus b (H.init.version + 1)).err = e
+    generalize (apply plus H.init.lastErr b (H.init.version + 1)).err = e
     cases e <;> simp [advance, setAsReady, H.init]
 
 end NGF.HandlerVer
